@@ -376,6 +376,6 @@ theorem hidden_state_reviewed :
    "decode/bds/bds20.rs", "decode/bds/bds21.rs", "decode/bds/bds30.rs", "decode/bds/bds40.rs",
    "decode/bds/bds44.rs", "decode/bds/bds45.rs", "decode/bds/bds50.rs", "decode/bds/bds60.rs",
    "decode/bds/bds61.rs", "decode/bds/bds62.rs", "decode/bds/bds65.rs"] =
-      [("decode/mod.rs", "static CONFIG: OnceCell<SerializeConfig> = OnceCell::new();")] := by decide
+      [("decode/mod.rs", "static CONFIG:OnceCell<SerializeConfig>=OnceCell::new();")] := by decide
 
 end Rs1090.Props.C07
